@@ -44,6 +44,18 @@ class Unquoter:
                 raise AnalysisError(f"{self.mod}._Unquoter.__init__ does not store its `{need_}` argument")
         self.acc = self._accumulator()
         self.sites = []
+        # attributes the constructor derives from its arguments: attr -> value term (e.g. keep = unsafe + ignore)
+        self.derived = {}
+        try:
+            init = analyze(model, model.func(f"{self.mod}._Unquoter.__init__"))
+            for e in init.by_kind("store_attr"):
+                if e.obj == ("param", "self") and e.value[0] != "param":
+                    self.derived[e.attr] = e.value
+        except AnalysisError:
+            pass
+
+    def param_attr_inv(self):
+        return {p: p for p in self.param_attr}
 
     def sattr(self, p):
         return ("attr", ("param", "self"), self.param_attr[p])
@@ -84,6 +96,10 @@ class Unquoter:
         ctx.rule(rule, floor=10, what="unquoter emission classes: decoded text raw only when not protected by qs / unsafe / "
                                       "ignore; '+' to space only under qs; everything else verbatim or re-quoted")
         unsafe, ignore, qs = self.sattr("unsafe"), self.sattr("ignore"), self.sattr("qs")
+        units = [e for e in r.events if e.kind in ("sub", "call") and self.is_unit(e.data.get("value", ("x",)))]
+        if not units:
+            raise AnalysisError(f"{self.qual}: the input is not scanned unit by unit through an index "
+                                "(val[i] / PyUnicode_READ(kind, data, i)): unknown idiom")
         for e in r.by_kind("mutate"):
             if e.on_name != self.acc:
                 continue
@@ -96,6 +112,15 @@ class Unquoter:
             site = dict(event=e)
             parts = flatten(a)
             esc = self._escape_template(parts)
+            if esc is None and a[0] == "sub" and a[1][0] == "attr" and a[1][1] == ("param", "self") and a[1][2] in self.derived:
+                # self.<table>[unit] with table = {c: '%XX' of c for c in unsafe} built by the constructor
+                d = self.derived[a[1][2]]
+                if d[0] == "comp" and d[1] == "dict" and len(d[2]) == 1 and d[2][0][0] == "tuple" and len(d[2][0][1]) == 2 and \
+                        d[3] == (("param", self.param_attr_inv().get("unsafe", "unsafe")),):
+                    key, val = d[2][0][1]
+                    tpl = self._escape_template(flatten(val))
+                    if key[0] == "elem" and tpl is not None and tpl[0] == key and tpl[2]:
+                        esc = (a[2], tpl[1], True)
             if e.method == "extend" and esc is None:
                 # extending the list with a string adds its characters: the same text after ''.join - anything else is unknown
                 raise AnalysisError(f"{self.qual}:{e.node.lineno}: unclassifiable emission {cons}")
@@ -115,8 +140,8 @@ class Unquoter:
                 ctx.ob(rule, self.qual, cons, True, where=w, sample="verbatim slice of the input", nontrivial=False)
             elif self.is_decoded(a):
                 site["cls"] = "DECODED"
-                f_unsafe = truth(("cmp", "In", a, unsafe), st.facts)
-                f_ignore = truth(("cmp", "In", a, ignore), st.facts)
+                f_unsafe = self._in(st, a, "unsafe")
+                f_ignore = self._in(st, a, "ignore")
                 qs_true = st.facts.get(qs)
                 qs_ok = qs_true is False or self._not_in_qs_delims(st, a)
                 ok = f_unsafe is False and f_ignore is False and qs_ok
@@ -174,6 +199,88 @@ class Unquoter:
         self._returns()
         self._progress()
         self._read_bounds()
+        self._escape_syntax()
+
+    def _in(self, st, a, param):
+        """Truth of `a in <the constructor's `param` string>`: asked directly, or through a string the constructor built by
+        concatenation from it (`self._keep = unsafe + ignore`: not in the sum => not in either part)."""
+        direct = truth(("cmp", "In", a, self.sattr(param)), st.facts)
+        if direct is not None:
+            return direct
+        for attr, val in self.derived.items():
+            parts = flatten(val)
+            if all(p[0] == "val" and p[1][0] == "param" for p in parts) and ("val", ("param", param)) in parts:
+                t = truth(("cmp", "In", a, ("attr", ("param", "self"), attr)), st.facts)
+                if t is False:
+                    return False
+                if t is True and len(parts) == 1:
+                    return True
+        return None
+
+    def _escape_syntax(self):
+        """Which two characters after '%' make an escape: exactly two hex digits, each in either case. (A table keyed by
+        the all-upper and all-lower spellings only, or a pattern with a narrower class, silently stops decoding '%aB'.)"""
+        ctx, r = self.ctx, self.r
+        rule = f"HX-{self.tag}"
+        ctx.rule(rule, floor=1, what="an escape is '%' followed by two hex digits, each in either case")
+        hexd = "0123456789abcdefABCDEF"
+        want = {a + b for a in hexd for b in hexd}
+        if self.backend == "pyx":
+            # the compiled unquoter validates through _restore_ch / _from_hex: folded over probe code points
+            from .quoter_pyx import CQuoter
+            uses = [e for e in r.by_kind("call") if callee_name(e.value) == "_restore_ch"]
+            ctx.instance(rule)
+            ctx.ob(rule, self.qual, "escape digits validated by _restore_ch", bool(uses),
+                   "the compiled unquoter does not validate the two characters after '%' with _restore_ch", where(self.fi, self.fi.node),
+                   sample="_restore_ch(d1, d2) != -1 (digit decoder checked by T14)")
+            cq = CQuoter.__new__(CQuoter)
+            cq.ctx, cq.model = ctx, self.model
+            from .quoter_pyx import Tables
+            cq.tables = Tables(self.model)
+            cq._hex_decode()
+            return
+        fold = Folder(self.model)
+        accepted = []
+        seen = set()
+        for e in r.by_kind("cond"):
+            for t in walk(e.test):
+                if t[0] != "call" or t[1][0] != "attr" or id(t) in seen:
+                    continue
+                recv, meth = t[1][1], t[1][2]
+                if meth in ("match", "fullmatch") and len(t[2]) == 1 and t[2][0][0] == "sub" and t[2][0][1] == ("param", "val"):
+                    try:
+                        pat = fold.fold(recv)
+                    except CannotFold:
+                        continue
+                    from .quoters import regex_two_classes
+                    classes = regex_two_classes(pat)
+                    if classes is None:
+                        raise AnalysisError(f"{self.qual}: escape pattern {pat!r} is not two one-character classes (unknown idiom)")
+                    accepted.append((show(t)[:60], {chr(a) + chr(b) for a in classes[0] for b in classes[1]}))
+                elif meth == "get" and len(t[2]) >= 1 and t[2][0][0] == "sub" and t[2][0][1] == ("param", "val"):
+                    try:
+                        table = fold.fold(recv)
+                    except CannotFold:
+                        continue
+                    if isinstance(table, dict):
+                        keys = {k.decode("latin1") if isinstance(k, bytes) else k for k in table}
+                        bad_vals = sorted(k for k, v in table.items() if isinstance(k, str) and len(k) == 2 and k in want and
+                                          (bytes(v) if isinstance(v, (bytes, bytearray)) else v) not in (bytes([int(k, 16)]), int(k, 16), chr(int(k, 16))))
+                        if bad_vals:
+                            ctx.instance(rule)
+                            ctx.ob(rule, self.qual, f"escape table {show(recv)}", False,
+                                   f"the escape table maps {bad_vals[:4]} to something other than the byte they denote", where(self.fi, e.node))
+                        accepted.append((show(t)[:60], keys))
+        if not accepted:
+            raise AnalysisError(f"{self.qual}: the test that recognises the two hex digits of an escape was not found "
+                                "(neither a two-class pattern nor a table look-up on a slice of the input): unknown idiom")
+        for cons, acc in accepted:
+            ctx.instance(rule)
+            missing, extra = sorted(want - acc), sorted(acc - want)
+            ctx.ob(rule, self.qual, cons, not missing and not extra,
+                   f"escape digits accepted differ from [0-9A-Fa-f]{{2}}: not recognised e.g. {missing[:4]} ({len(missing)} pairs), "
+                   f"wrongly accepted e.g. {extra[:4]} ({len(extra)})", where(self.fi, self.fi.node),
+                   sample="all 484 spellings of two hex digits, nothing else")
 
     def _qs_sets(self, st, t):
         out = []
